@@ -410,10 +410,24 @@ fn value_case(rng: &mut Rng, rep: &Report) -> bool {
 // ------------------------------------------------------------------------------------------
 // stream / format level
 
+/// records what it is given; `1`: fails the next call with a validation error (2: an I/O error)
 #[derive(Clone, Default)]
-struct RecStream(Arc<Mutex<Vec<(Vec<Op>, Vec<(String, String)>)>>>);
+struct RecStream(Arc<Mutex<Vec<(Vec<Op>, Vec<(String, String)>)>>>, Arc<std::sync::atomic::AtomicU8>);
+impl RecStream {
+    fn fail_next(&self, how: u8) {
+        self.1.store(how, std::sync::atomic::Ordering::SeqCst);
+    }
+    fn scripted_failure(&self) -> Result<(), IoStreamError> {
+        match self.1.swap(0, std::sync::atomic::Ordering::SeqCst) {
+            0 => Ok(()),
+            1 => Err(IoStreamError::Validation(metrique_writer::ValidationError::invalid("scripted downstream rejection"))),
+            _ => Err(IoStreamError::Io(io::Error::other("scripted downstream i/o error"))),
+        }
+    }
+}
 impl EntryIoStream for RecStream {
     fn next(&mut self, entry: &impl Entry) -> Result<(), IoStreamError> {
+        self.scripted_failure()?;
         self.0.lock().unwrap().push((record(entry), record_sample_group(entry)));
         Ok(())
     }
@@ -423,6 +437,7 @@ impl EntryIoStream for RecStream {
 }
 impl Format for RecStream {
     fn format(&mut self, entry: &impl Entry, _output: &mut impl io::Write) -> Result<(), IoStreamError> {
+        self.scripted_failure()?;
         self.0.lock().unwrap().push((record(entry), record_sample_group(entry)));
         Ok(())
     }
@@ -438,38 +453,62 @@ fn stream_case(rng: &mut Rng, rep: &Report) -> bool {
     let sv: SmallVec<[(Cow<'static, str>, Cow<'static, str>); 2]> = cow_dims(&dims).into_iter().collect();
     let denyset: HashSet<Cow<'static, str>> = deny.iter().map(|d| Cow::Owned(d.clone())).collect();
     rep.eval();
+    // every adapter is a long-lived object: the same entry goes through it three times, the second
+    // time the downstream stream / format fails (validation or I/O error); the first and the third
+    // pass must both be transparent
+    let fail_how = 1 + rng.below(2) as u8;
     let mut results: Vec<(&str, (Vec<Op>, Vec<(String, String)>), (Vec<Op>, Vec<(String, String)>))> = vec![];
     {
         let r = RecStream::default();
         let mut s = EntryIoStreamExt::merge_globals(r.clone(), g.clone());
         let _ = s.next(&e);
+        r.fail_next(fail_how);
+        let _ = s.next(&e);
+        let _ = s.next(&e);
         results.push(("stream.merge_globals", r.0.lock().unwrap()[0].clone(), expect(&Layer::GlobalsFirst(g.clone()), plain.clone(), sg.clone())));
+        results.push(("stream.merge_globals, third pass (the second one failed downstream)", r.0.lock().unwrap().get(1).cloned().unwrap_or_default(), expect(&Layer::GlobalsFirst(g.clone()), plain.clone(), sg.clone())));
     }
     {
         let r = RecStream::default();
         let mut s = EntryIoStreamExt::merge_global_dimensions(r.clone(), sv.clone(), Some(denyset.clone()));
         let _ = s.next(&e);
+        r.fail_next(fail_how);
+        let _ = s.next(&e);
+        let _ = s.next(&e);
         let exp = if dims.is_empty() { (plain.clone(), sg.clone()) } else { expect(&Layer::GlobalDims { dims: dims.clone(), deny: deny.clone() }, plain.clone(), sg.clone()) };
-        results.push(("stream.merge_global_dimensions", r.0.lock().unwrap()[0].clone(), exp));
+        results.push(("stream.merge_global_dimensions", r.0.lock().unwrap()[0].clone(), exp.clone()));
+        results.push(("stream.merge_global_dimensions, third pass (the second one failed downstream)", r.0.lock().unwrap().get(1).cloned().unwrap_or_default(), exp));
     }
     {
         let r = RecStream::default();
         let mut s = FormatExt::merge_globals(r.clone(), g.clone());
         let _ = s.format(&e, &mut io::sink());
+        r.fail_next(fail_how);
+        let _ = s.format(&e, &mut io::sink());
+        let _ = s.format(&e, &mut io::sink());
         results.push(("format.merge_globals", r.0.lock().unwrap()[0].clone(), expect(&Layer::GlobalsFirst(g.clone()), plain.clone(), sg.clone())));
+        results.push(("format.merge_globals, third pass (the second one failed downstream)", r.0.lock().unwrap().get(1).cloned().unwrap_or_default(), expect(&Layer::GlobalsFirst(g.clone()), plain.clone(), sg.clone())));
     }
     {
         let r = RecStream::default();
         let mut s = FormatExt::merge_global_dimensions(r.clone(), sv.clone(), Some(denyset.clone()));
         let _ = s.format(&e, &mut io::sink());
+        r.fail_next(fail_how);
+        let _ = s.format(&e, &mut io::sink());
+        let _ = s.format(&e, &mut io::sink());
         let exp = if dims.is_empty() { (plain.clone(), sg.clone()) } else { expect(&Layer::GlobalDims { dims: dims.clone(), deny: deny.clone() }, plain.clone(), sg.clone()) };
-        results.push(("format.merge_global_dimensions", r.0.lock().unwrap()[0].clone(), exp));
+        results.push(("format.merge_global_dimensions", r.0.lock().unwrap()[0].clone(), exp.clone()));
+        results.push(("format.merge_global_dimensions, third pass (the second one failed downstream)", r.0.lock().unwrap().get(1).cloned().unwrap_or_default(), exp));
     }
     {
         let r = RecStream::default();
         let mut s = ForceFlag::<_, TestFlag1>::from(r.clone());
         let _ = s.next(&e);
+        r.fail_next(fail_how);
+        let _ = s.next(&e);
+        let _ = s.next(&e);
         results.push(("ForceFlag<stream>", r.0.lock().unwrap()[0].clone(), expect(&Layer::Force(Flag::T1), plain.clone(), sg.clone())));
+        results.push(("ForceFlag<stream>, third pass (the second one failed downstream)", r.0.lock().unwrap().get(1).cloned().unwrap_or_default(), expect(&Layer::Force(Flag::T1), plain.clone(), sg.clone())));
     }
     {
         let (r1, r2) = (RecStream::default(), RecStream::default());
